@@ -275,6 +275,27 @@ def analyse_memo(R, f, spec):
                 return True
         return False
     cursors = {c for c in spec.get('cursors', ()) if rebound(c)}
+    # ... or for which every recursive call passes a local of this
+    # function that is itself the target of a loop or search here
+    # (`for k in range(j, n): ...; self._quantify(v, k, ...)`)
+    for cur in spec.get('cursors', ()):
+        if cur in cursors:
+            continue
+        passed = []
+        for c in au.calls_in(fn):
+            if au.call_name(c) != name:
+                continue
+            plist = [p for p in params if p != 'self'] if isinstance(
+                c.func, ast.Attribute) and 'self' in params else params
+            bound = dict(zip(plist, c.args))
+            for k in c.keywords:
+                if k.arg:
+                    bound[k.arg] = k.value
+            if cur in bound:
+                passed.append(bound[cur])
+        if passed and all(isinstance(a, ast.Name) and a.id != cur
+                          and rebound(a.id) for a in passed):
+            cursors.add(cur)
     missing = varying - keynames - cursors
     if missing:
         R.violation(
